@@ -47,7 +47,7 @@ func streamC02(c *Ctx) {
 	replayKnownFindings(c, dr)
 	nHist := c.N(60, 1200)
 	dm := Domain{IntsWithin2p53: true, NoNegTimes: true}
-	twins := []string{"t0", "t1", "t2", "t3"}
+	twins := []string{"t0", "t1", "t2", "measurements3"}
 	for _, be := range backendsAll {
 		im := NewImpl(be, c.Scratch)
 		for hN := 0; hN < nHist; hN++ {
